@@ -63,8 +63,29 @@ inline Gen<Value> doc_value(const DocOpts &o) {
                                   for (size_t i = 0; i < r.size() && cps < n; i++) { cut += r[i]; if (!(r[i] >= 0xD800 && r[i] <= 0xDBFF)) cps++; }
                                   return Value::chr(cut, true);
                               });
-    if (o.hard_text) return rc::gen::weightedOneOf<Value>({{30, value(o.vo, 0)}, {1, longv}, {7, hard_text(o.dialect == cp::CIF11)}});
-    return rc::gen::weightedOneOf<Value>({{30, value(o.vo, 0)}, {1, longv}});
+    // values that a writer must line-fold, dense in the characters that decide where a fold may go (a fold directly before ';', inside
+    // a surrogate pair, after a backslash, at or between blanks): 2049..7000 code units, few or no blanks
+    bool c2 = o.dialect == cp::CIF2;
+    auto foldv = rc::gen::map(rc::gen::tuple(range(2049, 7000), range(0, 0x3fffffff), rc::gen::element(0, 0, 1, 2)),
+                              [c2](std::tuple<int, int, int> t) {
+                                  int n = std::get<0>(t); uint32_t x = (uint32_t) std::get<1>(t) | 1u; int style = std::get<2>(t);
+                                  ustr s;
+                                  while ((int) s.size() < n) {
+                                      x = x * 1664525u + 1013904223u;           // deterministic expansion of the generated seed (part of the generated value)
+                                      uint32_t r = (x >> 8) % 100;
+                                      if (r < 30) s += u';';
+                                      else if (r < 36) s += u'\\';
+                                      else if (r < 38 && style != 1) s += u' ';
+                                      else if (r < 39 && style == 2) s += u'\n';
+                                      else if (r < 43 && c2) { s += (char16_t) 0xD835; s += (char16_t) 0xDCB3; }
+                                      else if (r < 45) s += u'\'';
+                                      else if (r < 47) s += u'"';
+                                      else s += (char16_t) (u'a' + (x >> 20) % 26);
+                                  }
+                                  return Value::chr(s, true);
+                              });
+    if (o.hard_text) return rc::gen::weightedOneOf<Value>({{30, value(o.vo, 0)}, {1, longv}, {1, foldv}, {7, hard_text(o.dialect == cp::CIF11)}});
+    return rc::gen::weightedOneOf<Value>({{30, value(o.vo, 0)}, {1, longv}, {1, foldv}});
 }
 
 inline Gen<Container> container(const DocOpts &o, const char16_t *stem, int idx, int depth) {
